@@ -73,6 +73,8 @@ def run(ck, F, tier):
         why = "for (c, messages) in variable_messages.per_destination.enumerate(): send_check_messages(messages, |msg| %r.send(%r, %r, %r))" % (store, src, dst, val)
     ck.inst("F1", "flooding:check-pass", ok, b.span, why + " ; required check_messages.send(c, msg.dest, msg.value)")
 
+    from ..decmodel import loop_positional
+    from ..panics import unwrap_mut
     b, t, _, calls = trace_fn(F, FL_VAR, ("self",))
     ss = sends(calls)
     arith = [s for s in calls if s["detail"] == ARI + "send_var_messages"]
@@ -82,29 +84,22 @@ def run(ck, F, tier):
     if ok:
         s, a = ss[0], arith[0]
         store, src, dst, val = s["vals"]
-        # the loop is a zip of enumerate(check_messages.per_destination), output_llrs.iter_mut(), input_llrs.iter()
-        fors = [n for n in walk(b.value) if n.get("k") == "for"]
+        # one pass over the positions v of the three per-variable sequences, however the zip/enumerate is grouped
         shape = False
-        v_name = None
-        if len(fors) == 1:
-            pat = fors[0]["pat"]
-            # (((v, messages), output_llr), &input_llr)
-            try:
-                v_name = pat["ps"][0]["ps"][0]["ps"][0]["ident"]
-                tr = Tracer(F, "NONE")
-                d = tr.iter_desc(fors[0]["iter"], {b.params[0]["name"]: var("self")})
-                shape = (d[0] == "zip" and d[1][0] == "zip" and d[1][1] == ("enumerate", ("elems", var("self.check_messages.per_destination")))
-                         and d[1][2] == ("iterdesc", ("elems", var("self.output_llrs"))) and d[2] == ("iterdesc", ("elems", var("self.input_llrs"))))
-            except (KeyError, IndexError, TypeError):
-                shape = False
+        idx_names = set()
+        if len(a["loops"]) == 1:
+            idx_names, leaves, enum = loop_positional(a["loops"][0])
+            want_leaves = [("elems", var("self.check_messages.per_destination")), ("elems", var("self.output_llrs")), ("elems", var("self.input_llrs"))]
+            shape = enum and sorted(map(repr, leaves)) == sorted(map(repr, want_leaves))
         da = single_atom(dst) if isinstance(dst, Poly) else None
         m = da[1][:-5] if da and da[0] == "v" and da[1].endswith(".dest") else None
-        src_ok = v_name is not None and repr(src).startswith(v_name)
-        out_ok = len(asg) == 1 and "self.output_llrs" in repr(asg[0].args[0]) and repr(asg[0].args[1]).startswith(ARI + "send_var_messages(")
+        sa_ = single_atom(src) if isinstance(src, Poly) else None
+        src_ok = sa_ is not None and sa_[0] == "v" and sa_[1] in idx_names
+        out_ok = len(asg) == 1 and "self.output_llrs" in repr(asg[0].args[0]) and repr(asg[0].args[1]).startswith(ARI + "send_var_messages(") and not asg[0].guards
         llr_ok = "self.input_llrs" in repr(a["vals"][1]) and "self.check_messages.per_destination" in repr(a["vals"][2])
-        ok = shape and store == var("self.variable_messages") and src_ok and m is not None and val == var(m + ".value") and out_ok and llr_ok
-        why = ("zip(enumerate(check_messages.per_destination), output_llrs.iter_mut(), input_llrs.iter()) [%s]: *output_llr = send_var_messages(input_llr, "
-               "messages, |msg| %r.send(%r, %r, %r)) [out %s, args %s]" % (shape, store, src, dst, val, out_ok, llr_ok))
+        ok = shape and store == var("self.variable_messages") and src_ok and m is not None and val == var(m + ".value") and out_ok and llr_ok and not a["guards"]
+        why = ("one pass over the positions of check_messages.per_destination, output_llrs and input_llrs [%s]: output[v] = send_var_messages(input[v], "
+               "messages[v], |msg| %r.send(%r, %r, %r)) [index %s, out %s, args %s]" % (shape, store, src, dst, val, src_ok, out_ok, llr_ok))
     ck.inst("F1", "flooding:variable-pass", ok, b.span, why + " ; required variable_messages.send(v, msg.dest, msg.value)")
 
     b, t, _, calls = trace_fn(F, FL_INIT, ("self", "llrs"))
@@ -115,17 +110,29 @@ def run(ck, F, tier):
         s = ss[0]
         store, src, dst, val = s["vals"]
         lp = s["loops"]
-        shape = len(lp) == 2 and lp[0][0] == "enumerate" and lp[0][2] == ("elems", var("self.input_llrs")) and lp[1][0] == "iter"
-        v = var(lp[0][1]) if shape else None
-        col_ok = shape and lp[1][2] == ("elems", app(SM + "iter_col", var("self.h"), v))
-        dst_ok = col_ok and elem_of(dst) == app(SM + "iter_col", var("self.h"), v)
-        va = single_atom(val) if isinstance(val, Poly) else None
-        val_ok = va is not None and atom_fn(va) == ARI + "llr_to_var_message" and elem_of(atom_args(va)[1]) == var("self.input_llrs")
-        ok = store == var("self.variable_messages") and src == v and dst_ok and val_ok and not s["guards"]
-        why = "for (v, llr) in input_llrs.enumerate(): for c in h.iter_col(v): %r.send(%r, %r, llr_to_var_message(llr)) [%s %s %s]" % (store, src, dst, col_ok, dst_ok, val_ok)
+        # for every variable v (position in input_llrs) and every check c of h.iter_col(v): nested loops or a flat_map of the same nest
+        shape = len(lp) == 2 and lp[0][0] in ("enumerate", "iter") and lp[1][0] == "iter"
+        col_ok = dst_ok = val_ok = False
+        v = None
+        if shape:
+            names0, leaves0, enum0 = loop_positional(lp[0])
+            shape = enum0 and [repr(x) for x in leaves0] == [repr(("elems", var("self.input_llrs")))]
+            sa_ = single_atom(src) if isinstance(src, Poly) else None
+            v = src if (sa_ is not None and sa_[0] == "v" and sa_[1] in names0) else None
+        if shape and v is not None:
+            COL = app(SM + "iter_col", var("self.h"), v)
+            d1 = lp[1][2]
+            while isinstance(d1, tuple) and d1 and d1[0] == "map":
+                d1 = d1[1]          # a map that only repackages (v, c, llr) keeps the visited checks
+            col_ok = d1 in (("elems", COL), ("elems", ("P", COL)))
+            dst_ok = col_ok and (elem_of(dst) == COL)
+            va = single_atom(val) if isinstance(val, Poly) else None
+            val_ok = va is not None and atom_fn(va) == ARI + "llr_to_var_message" and elem_of(atom_args(va)[1]) == var("self.input_llrs")
+        ok = bool(shape) and v is not None and store == var("self.variable_messages") and dst_ok and val_ok and not s["guards"]
+        why = "for every variable v of input_llrs and every c of h.iter_col(v): %r.send(%r, %r, llr_to_var_message(llr_v)) [%s %s %s]" % (store, src, dst, col_ok, dst_ok, val_ok)
     asg = [e for e in t.events if e.callee == "<assign>"]
     q_ok = len(asg) == 1 and elem_of(asg[0].args[0]) == var("self.input_llrs") and repr(asg[0].args[1]).startswith(ARI + "input_llr_quantize(self.arithmetic, elem(") \
-        and "llrs" in repr(asg[0].args[1]) and t.events.index(asg[0]) == 0
+        and "llrs" in repr(asg[0].args[1]) and t.events.index(asg[0]) == 0 and not asg[0].guards
     ck.inst("F1", "flooding:initialize", ok and q_ok, b.span, why + " ; input_llrs[i] = input_llr_quantize(llrs[i]) first: %s" % q_ok)
 
     sb = F.body("decoder::Messages::<T>::send")
@@ -136,20 +143,47 @@ def run(ck, F, tier):
     ts.eval(sb.value, env)
     asg = [e for e in ts.events if e.callee == "<assign>"]
     ok = False
-    if len(asg) == 1 and asg[0].args[1] == var("value"):
+    SEQ = app("index", var("self.per_destination"), var("destination"))
+    UNW = ("std::option::Option::<T>::expect", "std::option::Option::<T>::unwrap")
+
+    def pred_of(clo):
+        node = F.closures.get(clo[1]) if isinstance(clo, tuple) and clo and clo[0] == "closure" and isinstance(clo[1], str) else None
+        if node is None:
+            return None
+        try:
+            return Tracer(F, "NONE").apply(("closure", node, dict(ts.closure_envs.get(clo[1], {}))), [var("m")])
+        except Unsupported:
+            return None
+
+    def seq_is(d):
+        return isinstance(d, tuple) and d and d[0] == "iterdesc" and d[1][0] == "elems" and unwrap_mut(d[1][1][1] if isinstance(d[1][1], tuple) and d[1][1][0] == "P" else d[1][1]) == SEQ
+    TAGEQ = (app("eq", var("m.source"), var("source")), app("eq", var("source"), var("m.source")))
+    if len(asg) == 1 and asg[0].args[1] == var("value") and not asg[0].guards and not asg[0].loops:
         tgt = asg[0].args[0]
-        ta = single_atom(tgt)
+        ta = single_atom(tgt) if isinstance(tgt, Poly) else None
         if ta and atom_fn(ta) == ".value":
             inner = single_atom(atom_args(ta)[0])
-            if inner and atom_fn(inner) in ("std::option::Option::<T>::expect", "std::option::Option::<T>::unwrap"):
+            if inner and atom_fn(inner) in UNW:
+                # per_destination[d].iter_mut().find(|m| m.source == source).expect(..).value = value
                 f = single_atom(atom_args(inner)[0])
                 if f and atom_fn(f) == "std::iter::Iterator::find":
-                    src = f[2]
-                    cl = [c for c in walk(sb.value) if c.get("k") == "closure"]
-                    pred = SymEval(F).apply(("closure", cl[0], dict(env)), [var("m")]) if cl else None
-                    ok = repr(src) == repr(vkey(("iterdesc", ("elems", app("index", var("self.per_destination"), var("destination")))))) and \
-                        pred in (app("eq", var("m.source"), var("source")), app("eq", var("source"), var("m.source")))
-    ck.inst("F1", "Messages::send", ok, sb.span, "send(source, destination, value): per_destination[destination].find(m.source == source).value = value")
+                    ok = seq_is(f[2]) and pred_of(f[3]) in TAGEQ
+            elif inner and atom_fn(inner) == "index":
+                # let i = per_destination[d].iter().position(|m| m.source == source).expect(..); per_destination[d][i].value = value
+                base_, i_ = atom_args(inner)
+                ia = single_atom(i_) if isinstance(i_, Poly) else None
+                if unwrap_mut(base_) == SEQ and ia and atom_fn(ia) in UNW:
+                    f = single_atom(atom_args(ia)[0])
+                    if f and atom_fn(f) == "std::iter::Iterator::position":
+                        ok = seq_is(f[2]) and pred_of(f[3]) in TAGEQ
+        elif ta and atom_fn(ta) in UNW:
+            # *per_destination[d].iter_mut().find_map(|m| (m.source == source).then_some(&mut m.value)).expect(..) = value
+            f = single_atom(atom_args(ta)[0])
+            if f and atom_fn(f) == "std::iter::Iterator::find_map":
+                pv = pred_of(f[3])
+                ok = seq_is(f[2]) and isinstance(pv, tuple) and len(pv) == 3 and pv[0] == "opt" and pv[2] == var("m.value") and \
+                    pv[1] in (app("bool_to_option", TAGEQ[0]), app("bool_to_option", TAGEQ[1]))
+    ck.inst("F1", "Messages::send", ok, sb.span, "send(source, destination, value): the (first) slot of per_destination[destination] whose source tag equals `source` receives the value")
 
     # ---- F2 -----------------------------------------------------------------------------------------
     def store_src(path, field, ctor):
@@ -182,11 +216,51 @@ def run(ck, F, tier):
                 ok = rng == ("range", num(0), app(SM + bound, H), False) and el == app(SM + adj, H, var("i"))
                 why = "%s = from_iter((%r..%r).map(|i| %r))" % (field, rng[1], rng[2], el)
         ck.inst("F2", "%s:%s" % (sched, field), ok, nb.span, why + " ; required (0..h.%s()).map(|i| h.%s(i))" % (bound, adj))
-    for ctor, tagf in (("decoder::Messages::<T>::from_iter", "source"), ("decoder::SentMessages::<T>::from_iter", "dest")):
+    def peel_collect_map(v, tr_, env_):
+        """collect(map(SRC, clo)) [possibly .into_boxed_slice()] -> (SRC value/desc, closure value) or None"""
+        for _ in range(4):
+            a_ = single_atom(v) if isinstance(v, Poly) else None
+            if a_ is None:
+                return None
+            fn_ = atom_fn(a_)
+            if fn_.endswith("into_boxed_slice") or fn_.endswith("Vec::<T>::into") or fn_.endswith("From::from"):
+                v = atom_args(a_)[0]
+                continue
+            if fn_ == "std::iter::Iterator::collect":
+                d = a_[2]
+                if isinstance(d, tuple) and d and d[0] == "iterdesc" and d[1][0] == "map":
+                    return d[1][1], d[1][2]
+                da_ = single_atom(d[1]) if isinstance(d, tuple) and len(d) == 2 and d[0] == "P" and isinstance(d[1], Poly) else None
+                if da_ and atom_fn(da_) == "std::iter::Iterator::map":
+                    return da_[2], da_[3]
+            return None
+        return None
+
+    def as_closure(c, tr_):
+        if isinstance(c, tuple) and c and c[0] == "closure" and isinstance(c[1], str):
+            return ("closure", F.closures.get(c[1]), dict(getattr(tr_, "closure_envs", {}).get(c[1], {})))
+        return c
+    for ctor, tagf, sname in (("decoder::Messages::<T>::from_iter", "source", "Message"), ("decoder::SentMessages::<T>::from_iter", "dest", "SentMessage")):
         fb = F.body(ctor)
-        tags = [n for n in walk(fb.value) if n.get("k") == "struct" and n.get("def", "").startswith("decoder::") and any(f["name"] == tagf for f in n["fields"])]
-        ok = len(tags) == 1 and (callee(strip(next(f["e"] for f in tags[0]["fields"] if f["name"] == tagf))) or "").endswith("Borrow::borrow")
-        ck.inst("F2", ctor.split("::")[1] + ":tags", ok, fb.span, "each slot is tagged with the adjacency entry (%s = *j.borrow()) and a default value" % tagf)
+        tg = Tracer(F, "NONE", inline=lambda p: F.private_helper(p, "decoder::", keep=r"decoder::(flooding|horizontal_layered|arithmetic|factory)::.*"))
+        envg = {}
+        tg.bind(fb.params[0], var("iter"), envg)
+        ok = False
+        try:
+            rv = tg.eval(fb.value, envg)
+            fld = list(rv[2].values())[0] if isinstance(rv, tuple) and rv[0] == "struct" and len(rv[2]) == 1 else None
+            outer = peel_collect_map(fld, tg, envg)
+            is_src = lambda d, v_: d in (v_, ("P", v_), ("elems", v_), ("elems", ("P", v_)))
+            if outer is not None and is_src(outer[0], var("iter")):
+                inner_v = tg.apply(as_closure(outer[1], tg), [var("nodes")])
+                inner = peel_collect_map(inner_v, tg, envg)
+                if inner is not None and is_src(inner[0], var("nodes")):
+                    ent = tg.apply(as_closure(inner[1], tg), [var("node")])
+                    ok = isinstance(ent, tuple) and ent[0] == "struct" and ent[1] == sname and ent[2].get(tagf) == var("node") and \
+                        ent[2].get("value") == app("std::default::Default::default") and set(ent[2]) == {tagf, "value"}
+        except Unsupported:
+            ok = False
+        ck.inst("F2", ctor.split("::")[1] + ":tags", ok, fb.span, "one slot per adjacency entry, in order, tagged with that entry (%s = node) and holding a default value" % tagf)
 
     # ---- F3 -----------------------------------------------------------------------------------------
     for sched, prefix, want in (("flooding", FL, ["check", "variable", "check_llrs"]),
@@ -260,11 +334,17 @@ def run(ck, F, tier):
         a1, a2 = asg
         if elem_of(a1.args[0]) != var("self.llrs"):
             a1, a2 = a2, a1
-        q = repr(a1.args[1])
-        ok1 = elem_of(a1.args[0]) == var("self.llrs") and q.startswith(ARI + "llr_to_var_llr(self.arithmetic, " + ARI + "input_llr_quantize(self.arithmetic, elem(") and "llrs" in q \
-            and not a1.guards
-        d = a1.loops[0][2] if len(a1.loops) == 1 and a1.loops[0][0] == "iter" else None
-        zip_ok = d is not None and d[0] == "zip" and d[1] == ("elems", var("self.llrs")) and d[2] == ("iterdesc", ("elems", var("llrs")))
+        # llrs[i] = llr_to_var_llr(input_llr_quantize(y[i])): target and source are the elements at the same position of the two
+        # whole slices (a zip, in a for loop or under for_each)
+        ok1 = zip_ok = False
+        if len(a1.loops) == 1 and a1.loops[0][0] == "iter" and isinstance(a1.loops[0][1], str) and not a1.guards:
+            h_ = a1.loops[0][1]
+            _, leaves1, _ = loop_positional(a1.loops[0])
+            Q = app(ARI + "llr_to_var_llr", var("self.arithmetic"), app(ARI + "input_llr_quantize", var("self.arithmetic"), var("Y")))
+            ys = [app("elem", var("llrs"), var(h_ + "_z")), app("elem", ("iterdesc", ("elems", var("llrs"))), var(h_ + "_z"))]
+            from ..symx import replace_atom
+            ok1 = a1.args[0] == app("elem", var("self.llrs"), var(h_)) and any(a1.args[1] == replace_atom(Q, single_atom(var("Y")), y) for y in ys)
+            zip_ok = repr(("elems", var("self.llrs"))) in [repr(x) for x in leaves1] and all(repr(x) in (repr(("elems", var("self.llrs"))), repr(("elems", var("llrs")))) for x in leaves1)
         t2 = single_atom(a2.args[0])
         ok2 = False
         if t2 is not None and atom_fn(t2) == ".value" and len(a2.loops) == 2 and not a2.guards and a2.args[1] == app("std::default::Default::default"):
